@@ -393,7 +393,7 @@ func execC15(spec *RunSpec) *Result {
 		fspec.Faults = nil
 		fresh := runAlone(fspec, c.op, refKernelWith(spec.Kernel))
 		res.addStat("cases", 1)
-		ok := sameResult(o, fresh)
+		ok := sameOutput(o, fresh)
 		if c.flt {
 			// The statement says nothing about a render during which a read fails (the template language itself
 			// swallows some read errors). Such a render is not compared; what the fault configuration decides is the
@@ -656,7 +656,20 @@ func execC15Conc(spec *RunSpec) *Result {
 			continue
 		}
 		if o.IsErr {
-			res.violate("C15", "unexpected-error", "render error while files change underneath ("+op.Entry+")", "op %d: %s", i, o.Err)
+			// All versions of all files are valid templates, so a render that overlaps no edit cannot fail. One that
+			// does overlap an edit may be told so (an engine may refuse a file that changed while it was being
+			// loaded - a fresh engine hitting the same window would do the same): not judged.
+			overlaps := false
+			for _, e := range effective {
+				if e.Step >= cr.stamps[i][0] && e.Step <= cr.stamps[i][1] {
+					overlaps = true
+				}
+			}
+			if overlaps {
+				res.addStat("errors_during_an_edit", 1)
+			} else {
+				res.violate("C15", "unexpected-error", "render error with no edit under way ("+op.Entry+")", "op %d: %s", i, o.Err)
+			}
 			continue
 		}
 		seen := map[string]bool{}
@@ -732,7 +745,7 @@ func execC15Conc(spec *RunSpec) *Result {
 		fresh := runAlone(fspec, p, refKernel())
 		simrt.Begin(spec.Kernel)
 		res.addStat("cases", 2)
-		if !sameResult(got, fresh) {
+		if !sameOutput(got, fresh) {
 			res.violate("C15", "stale-after-edits", "after concurrent edits stopped the engine still renders an overwritten version ("+entry+")",
 				"after the last edit a sequential %s of the page differs from a fresh engine on the final files:\n  long-lived: %s\n  fresh:      %s", entry, got, fresh)
 		}
